@@ -54,6 +54,6 @@ Proof.
 Qed.
 
 Lemma run_model_never_faults (l : list tok) c : parse_case l = Some c ->
-  run_model l = print_obs (w_q (run1 (map_cfg conv (cs_cfg c)) (map_start conv (cs_start c)) (conv_case_ops (cs_ops c))))
+  run_model_seq l = print_obs (w_q (run1 (map_cfg conv (cs_cfg c)) (map_start conv (cs_start c)) (conv_case_ops (cs_ops c))))
                           (w_got (run1 (map_cfg conv (cs_cfg c)) (map_start conv (cs_start c)) (conv_case_ops (cs_ops c)))).
-Proof. intros H. unfold run_model. rewrite H, run_compiled_correct. reflexivity. Qed.
+Proof. intros H. unfold run_model_seq. rewrite H, run_compiled_correct. reflexivity. Qed.
